@@ -326,6 +326,11 @@ def run_case(case, acc):
         d = datetime.date(2020, 2, 29)
         for b in (d, '20200229'):
             mecard_one({'name': 'N', 'birthday': b}, acc, symbol=True)
+        for half in (dict(lat=1.5), dict(lng=-2.25), dict(lat=1.5, lng=None)):
+            try:
+                vcard_one(dict({'name': 'N', 'displayname': 'D'}, **half), acc)
+            except ValueError:
+                acc.count('vcard_half_geo_refused')        # (refusing an incomplete position is fine; emitting half a GEO line is not)
         for b in (d, '2020-02-29'):
             vcard_one({'name': 'N', 'displayname': 'D', 'birthday': b, 'rev': b, 'lat': 1.5, 'lng': -2.25, 'pobox': 'p', 'country': 'c;d'}, acc, symbol=True)
     elif kind == 'adr':
@@ -585,6 +590,29 @@ def epc_case(acc):
         if text is None:
             kw['reference'] = 'RF18539007547034'
         epc_one(kw, acc, symbol=True, may_refuse=True)
+    # exactly at the byte limit: payloads of 330 / 331 bytes are accepted (version 13 at level M), 332 / 333 bytes are refused
+    for target in (330, 331, 332, 333):
+        found = None
+        for k in range(1, 71):
+            for t in range(0, 141):
+                kw = dict(BASE, name='\u5c71' * k, text=('x' * t) or None)
+                if t == 0:
+                    kw['reference'] = 'RF18'
+                probe = '\n'.join(['BCD', '002', '1', 'SCT', '', kw['name'], kw['iban'], 'EUR20', '', kw.get('reference') or ''] + ([kw['text']] if kw['text'] else []))
+                if len(probe.encode('utf-8')) == target:
+                    found = kw
+                    break
+            if found:
+                break
+        if found:
+            found['encoding'] = 'utf-8'
+            epc_one(found, acc, expect_refusal=(target > 331), symbol=True)
+            acc.count('epc_byte_limit_cases')
+    # one-character fields, a geographic position given only half
+    for extra in (dict(name='n'), dict(text='t'), dict(text=None, reference='r'), dict(name='n', text='t', bic='BFSWDE33')):
+        kw = dict(BASE)
+        kw.update(extra)
+        epc_one(kw, acc)
     # a requested character set that cannot represent a field: refused, or a payload whose character-set line tells the truth
     for i in range(1, 9):
         for j in range(1, 9):
